@@ -209,6 +209,10 @@ def build_overlay(cid, cfg, mutant=None, novsync=False):
                 # by convention zz_verif_cNN*.go belongs to check CNN; anything else must be listed in cfg["files"]
                 continue
             ov[os.path.join(REPO, pkg, base)] = f
+    # non-test support files injected into other packages (no test binary is built for them)
+    for pkg, names in cfg.get("extra_files", {}).items():
+        for base in names:
+            ov[os.path.join(REPO, pkg, base)] = os.path.join(VERIF, "harness", pkg, base)
     replaced = {}
     if mutant:
         for rel, path in apply_mutant(mutant, tag).items():
@@ -549,6 +553,20 @@ def main():
         return rc
     if a[0] == "selftest":
         return do_selftest(a[1], a[2:])
+    if a[0] == "trypatch":
+        # ./mc trypatch Cxx <patch file> [--tier t]: run the check with the patch applied through the build overlay
+        # (same effect as `git -C /repo apply`, without touching /repo; no evidence is written)
+        tier = a[a.index("--tier") + 1] if "--tier" in a else "quick"
+        src = os.path.abspath(a[2])
+        name = re.sub(r"[^A-Za-z0-9]+", "_", os.path.basename(os.path.dirname(os.path.dirname(src))) + "_" + os.path.basename(os.path.dirname(src)))
+        os.makedirs(os.path.join(BUILD, "try"), exist_ok=True)
+        mp = os.path.join(BUILD, "try", name + ".patch")
+        shutil.copy(src, mp)
+        rc, viol = do_check(a[1], tier, mutant=mp)
+        shutil.rmtree(os.path.join(BUILD, a[1] + "-" + name), ignore_errors=True)
+        shutil.rmtree(os.path.join(BUILD, "mut", a[1] + "-" + name), ignore_errors=True)
+        print("trypatch %s %s: %s" % (a[1], a[2], "CAUGHT" if rc == 1 else ("BUILD/HARNESS-ERROR" if rc == 2 else "MISSED")))
+        return rc
     print(__doc__)
     return 2
 
